@@ -126,9 +126,9 @@ def run_case(ctx, name, params):
                 def mk_sync(orig):
                     tl = threading.local()
 
-                    def sync_individual(self, individual):
+                    def sync_individual(self, individual, *a, **kw):
                         if getattr(tl, "depth", 0) > 0:          # the retry path re-enters: not a new activation
-                            return orig(self, individual)
+                            return orig(self, individual, *a, **kw)
                         tl.depth = 1
                         with lk:
                             in_store[0] += 1
@@ -136,7 +136,7 @@ def run_case(ctx, name, params):
                         if S is not None and "sync" in gates:
                             S.gate("sync_enter")
                         try:
-                            return orig(self, individual)
+                            return orig(self, individual, *a, **kw)
                         finally:
                             if S is not None and "sync" in gates:
                                 S.gate("sync_exit")
